@@ -608,6 +608,17 @@ def _k5_kernel(repo: Repo, f: Func, res: RuleResult):
                         for i, el in enumerate(t.elts):
                             if i in comps and isinstance(el, ast.Name) and el.id not in pure_names:
                                 pure_names.add(el.id); changed = True
+    # every value stored into an array on a selection path is itself an input element (no constants, no arithmetic)
+    for n in walk_no_nested(f.node):
+        if isinstance(n, ast.Assign) and len(n.targets) == 1 and isinstance(n.targets[0], ast.Subscript):
+            b = base_name(n.targets[0])
+            if b in pure_arrays and b != out_name and not is_pure(n.value):
+                res.bad(f, n, norm(n),
+                        f"a value that is not an element of the input ({norm(n.value)[:40]}) is stored into {b!r}, which lies on "
+                        f"a selection path to the output: it is typed/rounded independently of the input dtype (e.g. a float "
+                        f"identity element makes nanosecond timestamps above 2^53 come back rounded)")
+            elif b in pure_arrays and b != out_name:
+                res.ok(f, n, norm(n), "stores an input element", nontrivial=False)
     on_path = set(pure_arrays)
     # the output is on a selection path if it receives a pure value
     if out_name and out_name in pure_arrays:
